@@ -1,5 +1,6 @@
 //! `mb2-check`: coordinator / worker / replay entry point. See DESIGN.md §2.
 
+mod alloc_track;
 mod checks;
 mod gen;
 mod known;
@@ -7,6 +8,9 @@ mod runner;
 mod sbx;
 
 use runner::*;
+
+#[global_allocator]
+static GLOBAL: alloc_track::Tracking = alloc_track::Tracking;
 use serde_json::{json, Value};
 use std::collections::{BTreeMap, HashSet};
 use std::io::Write;
